@@ -19,6 +19,19 @@ All engines are E1 enumerations of the real code against mc.ref.filterref:
 `bloom`     size x function count x tweak x item sequences: bit field after every `add`, `filter_bytes`,
             `filterload` layout, every inserted item present under the BIP37 matching rule.
 `bloomsize` every filter size of the tier's range: exactly the reference bit positions are set.
+`elemlist`  element LISTS with repeated entries (BIP158 elements form a set: N counts distinct elements) and other
+            container forms (tuple, set, frozenset, reversed, rotated) through `hashed_items` / `encode_gcs`.
+`ctorforms` `CompactFilter(key, values)` for every permutation of small value tuples and unsorted element-derived lists.
+`blockvec`  the six BIP158 test blocks through `Block.parse(...).get_outpoints()` + `encode_gcs` against the published
+            filter / header; every `TxOut.script_pubkey` object present in the published filter.
+`scriptobj` membership through library script objects (`Script.parse(raw=)`, stream parse, `ScriptPubKey.parse`,
+            `Script(commands)`, typed ScriptPubKey classes) over non-minimal / truncated / boundary pushes and templates.
+`sipseq`    every chunking of the `update()` stream from a step alphabet with `hash()` after every chunk, strides,
+            `copy()`, two live objects.
+`golombhi`  Golomb values from 2^26 up to 2000*M-1: windows around powers of two, N*M-1, every quotient boundary.
+`gcssizes`  every set size 0..300 (thorough 0..600, 1998, 1999) through the `gcs` checks.
+`bloomhist` bloom add-histories (repeats, long, bytearray items, two live filters) and murmur3 with unreduced seeds.
+`msgforms`  `CFilterMessage` constructor (display-order block hash) and one header chain split over 2..3 messages.
 """
 import itertools
 from io import BytesIO
@@ -409,6 +422,11 @@ def gen_gcsvalues(tier, seed):
     for n in range(1, maxlen + 1):
         for t in itertools.product(alpha, repeat=n):
             cases.append({"deltas": list(t)})
+    # deltas of 2^26 and above, up to the largest value of a 2000-element filter (N*M - 1)
+    for n in range(1, 4):
+        for t in itertools.product(HI_DELTAS, repeat=n):
+            if max(t) >= 1 << 26:  # DELTAS stays below 2^26: no tuple is enumerated twice
+                cases.append({"deltas": list(t)})
     # long runs (count boundaries of the CompactSize prefix), strictly increasing values
     for n in (252, 253, 254, 1000):
         cases.append({"deltas": [1 + (i * 7919) % 3000000 for i in range(n)]})
@@ -904,6 +922,730 @@ def run_bloomsize(case):
     return res
 
 
+# ---------------------------------------------------------------- element lists with repeats / container forms
+def elem_keys(tier, seed):
+    ks = named_keys(tier, seed)
+    return [ks[0], ks[2], ks[8]] if tier == "quick" else ks[:10]
+
+
+REPEAT_PATTERNS = ["first-twice", "first-again-last", "all-twice", "triple", "all-same"]
+FORM_PATTERNS = ["tuple", "set", "frozenset", "reversed", "rotated"]
+
+
+def gen_elemlist(tier, seed):
+    cases = []
+    sizes = [1, 2, 3, 10, 252, 253] if tier == "quick" else [1, 2, 3, 4, 10, 100, 252, 253, 254, 1000]
+    for kn, k in elem_keys(tier, seed):
+        for n in sizes:
+            for L in (25, "mixed"):
+                for pat in REPEAT_PATTERNS + FORM_PATTERNS:
+                    cases.append({"key": k.hex(), "kn": kn, "n": n, "L": L, "pattern": pat, "seed": seed})
+    cases.sort(key=lambda c: -c["n"])
+    return cases
+
+
+def run_elemlist(case):
+    from buidl.compactfilter import hashed_items, encode_gcs, CompactFilter
+
+    res = Res()
+    key = bytes.fromhex(case["key"])
+    n, L, seed, pat = case["n"], case["L"], case["seed"], case["pattern"]
+    base = make_elements(seed, n, L)
+    assert len(set(base)) == n
+    if pat == "first-twice":
+        arg = [base[0]] + base
+    elif pat == "first-again-last":
+        arg = base + [base[0]]
+    elif pat == "all-twice":
+        arg = base + base[::-1]
+    elif pat == "triple":
+        m = base[n // 2]
+        arg = [m] + base + [m]
+    elif pat == "all-same":
+        arg = [base[-1]] * (n + 1)
+    elif pat == "tuple":
+        arg = tuple(base)
+    elif pat == "set":
+        arg = set(base)
+    elif pat == "frozenset":
+        arg = frozenset(base)
+    elif pat == "reversed":
+        arg = base[::-1]
+    elif pat == "rotated":
+        arg = base[n // 2 :] + base[: n // 2]
+    else:
+        raise ValueError(pat)
+    repeats = pat in REPEAT_PATTERNS
+    cls = "raw-duplicates" if repeats else f"form={pat}"
+    uniq = sorted(set(arg))
+    assert (len(uniq) < len(arg)) == repeats
+    # BIP158: the elements form a set; N is the number of distinct elements
+    vals = R.hashed_set(key, uniq)
+    ref = R.gcs_from_values(vals)
+    nt = (case["kn"], n, L, pat)
+
+    def fresh():
+        return type(arg)(arg) if not isinstance(arg, list) else list(arg)
+
+    a = fresh()
+    got = attempt(hashed_items, key, a)
+    if isinstance(got, Rejected) or list(got) != vals:
+        viol(res, "elemlist", case, f"hashed_items/{cls}", hx(got) if isinstance(got, Rejected) else {"n_values": len(got), "first": list(got)[:6]}, {"n_values": len(vals), "first": vals[:6]}, "hashed_items differs from the sorted SipHash range mapping of the element SET over F = N*M (N = number of distinct elements)")
+    else:
+        res.ok("hashed_items==ref", nt)
+    if a != arg:
+        viol(res, "elemlist", case, "input-mutated", "argument changed", "argument unchanged", "hashed_items modified the container it was given")
+    a = fresh()
+    enc = attempt(encode_gcs, key, a)
+    if enc != ref:
+        viol(res, "elemlist", case, f"encode_gcs/{cls}", hx(enc), ref.hex()[:160], "encode_gcs differs from the BIP158 filter of the element set")
+    else:
+        res.ok("encode_gcs==ref", nt, sample={"key": case["kn"], "n": n, "pattern": pat, "filter_len": len(ref)} if n == 3 and L == 25 else None)
+    if a != arg:
+        viol(res, "elemlist", case, "input-mutated", "argument changed", "argument unchanged", "encode_gcs modified the container it was given")
+    again = attempt(encode_gcs, key, a)
+    if again != enc:
+        viol(res, "elemlist", case, "unstable", hx(again), hx(enc), "encode_gcs gives a different result when called a second time with the same argument")
+    else:
+        res.ok("second call identical")
+    # the library's own filter must report every element it was built from
+    if isinstance(enc, (bytes, bytearray)):
+        cf = attempt(CompactFilter.parse, key, bytes(enc))
+        missing = [e for e in uniq if isinstance(cf, Rejected) or attempt(lambda: RawScript(e) in cf) is not True]
+        if missing:
+            viol(res, "elemlist", case, f"false-negative/{cls}", {"missing": len(missing), "of": len(uniq), "first": missing[0].hex()[:80]}, "every element present", "an element of the list is not reported present by the filter encode_gcs built from it")
+        else:
+            res.ok("members present in own filter", n=len(uniq))
+    cf2 = attempt(lambda: CompactFilter(key, hashed_items(key, fresh())))
+    rs = attempt(cf2.serialize) if not isinstance(cf2, Rejected) else cf2
+    if rs != ref:
+        viol(res, "elemlist", case, f"construct-serialize/{cls}", hx(rs), ref.hex()[:160], "CompactFilter(key, hashed_items(key, elements)).serialize() differs from the BIP158 filter of the element set")
+    else:
+        missing = [e for e in uniq if attempt(lambda: RawScript(e) in cf2) is not True]
+        if missing:
+            viol(res, "elemlist", case, f"false-negative/{cls}", {"missing": len(missing), "of": len(uniq)}, "every element present", "CompactFilter(key, hashed_items(...)) does not report an element present")
+        else:
+            res.ok("construct: serialize==ref, members present", n=max(1, len(uniq)))
+    return res
+
+
+# ---------------------------------------------------------------- CompactFilter constructor input forms
+CTOR_DELTAS = [0, 1, (1 << 19) - 1, 1 << 19, 1 << 20, (1 << 26) - 1]
+
+
+def gen_ctorforms(tier, seed):
+    cases = []
+    maxlen = 3 if tier == "quick" else 4
+    for n in range(2, maxlen + 1):
+        for t in itertools.product(CTOR_DELTAS, repeat=n):
+            cases.append({"kind": "values", "deltas": list(t)})
+    for kn, k in elem_keys(tier, seed)[:3]:
+        for n in (3, 100) if tier == "quick" else (3, 4, 100, 253, 1000):
+            for order in ("reversed", "rotated", "evens-odds"):
+                for form in ("list", "tuple"):
+                    cases.append({"kind": "elements", "key": k.hex(), "kn": kn, "n": n, "order": order, "form": form, "seed": seed})
+    return cases
+
+
+def run_ctorforms(case):
+    from buidl.compactfilter import CompactFilter
+
+    res = Res()
+    if case["kind"] == "values":
+        key = bytes(16)
+        vals = list(itertools.accumulate(case["deltas"]))
+        want = R.gcs_from_values(vals)
+        fh = R.filter_hash(want)
+        n_ok = 0
+        for perm in sorted(set(itertools.permutations(vals))):
+            for form in ("list", "tuple"):
+                arg = list(perm) if form == "list" else tuple(perm)
+                keep = list(perm)
+                srt = list(perm) == vals
+                cls = ("sorted" if srt else "unsorted") + f"-{form}"
+                cf = attempt(CompactFilter, key, arg)
+                if isinstance(cf, Rejected):
+                    viol(res, "ctorforms", case, f"construct-rejected/{cls}", repr(cf), "constructs", f"CompactFilter(key, {form} of hashed values {list(perm)}) raises")
+                    continue
+                rs = attempt(cf.serialize)
+                if rs != want:
+                    viol(res, "ctorforms", case, f"serialize/{cls}", hx(rs), want.hex(), f"CompactFilter(key, {list(perm)}).serialize() is not the BIP158 encoding of the sorted values")
+                    continue
+                if attempt(cf.hash) != fh or attempt(cf.serialize) != want:
+                    viol(res, "ctorforms", case, f"hash-or-second-serialize/{cls}", "differs", fh.hex(), "hash() / a second serialize() differ from the encoding of the sorted values")
+                    continue
+                if list(arg) != keep:
+                    viol(res, "ctorforms", case, "input-mutated", list(arg), keep, "CompactFilter(key, values) reordered / changed the list it was given")
+                    continue
+                n_ok += 1
+        res.bulk("ctor(any order)->serialize==ref", n_ok, n_ok)
+        return res
+    key = bytes.fromhex(case["key"])
+    n, order, form, seed = case["n"], case["order"], case["form"], case["seed"]
+    els = make_elements(seed, n, 25)
+    vals = R.hashed_set(key, els)
+    want = R.gcs_from_values(vals)
+    if order == "reversed":
+        arg = vals[::-1]
+    elif order == "rotated":
+        arg = vals[n // 2 :] + vals[: n // 2]
+    else:
+        arg = vals[0::2] + vals[1::2]
+    keep = list(arg)
+    arg = list(arg) if form == "list" else tuple(arg)
+    cls = f"unsorted-{form}"
+    nt = (case["kn"], n, order, form)
+    cf = attempt(CompactFilter, key, arg)
+    if isinstance(cf, Rejected):
+        viol(res, "ctorforms", case, f"construct-rejected/{cls}", repr(cf), "constructs", "CompactFilter(key, unsorted hashed values) raises")
+        return res
+    rs = attempt(cf.serialize)
+    if rs != want:
+        viol(res, "ctorforms", case, f"serialize/{cls}", hx(rs), want.hex()[:160], "CompactFilter(key, unsorted hashed values).serialize() is not the BIP158 filter")
+    else:
+        res.ok("ctor(unsorted)->serialize==ref", nt)
+    missing = [e for e in els if attempt(lambda: RawScript(e) in cf) is not True]
+    if missing:
+        viol(res, "ctorforms", case, f"false-negative/{cls}", {"missing": len(missing), "of": n}, "every element present", "CompactFilter built from unsorted hashed values does not report an element present")
+    else:
+        res.ok("members present", n=n)
+    if list(arg) != keep:
+        viol(res, "ctorforms", case, "input-mutated", "argument changed", "argument unchanged", "CompactFilter(key, values) reordered / changed the list it was given")
+    else:
+        res.ok("input unchanged")
+    return res
+
+
+# ---------------------------------------------------------------- BIP158 vectors through the library's block walk
+def nonleading_op_return(script):
+    """True when an OP_RETURN opcode (not push data) occurs after the first position."""
+    i = 0
+    n = len(script)
+    while i < n:
+        op = script[i]
+        if op == 0x6A and i > 0:
+            return True
+        i += 1
+        if 1 <= op <= 75:
+            i += op
+        elif op == 76:
+            i += 1 + (script[i] if i < n else 0)
+        elif op == 77:
+            i += 2 + int.from_bytes(script[i : i + 2], "little")
+        elif op == 78:
+            i += 4 + int.from_bytes(script[i : i + 4], "little")
+    return False
+
+
+def gen_blockvec(tier, seed):
+    return [{"vector": i} for i in range(len(R.BIP158_VECTORS))]
+
+
+def run_blockvec(case):
+    from buidl.block import Block
+    from buidl.compactfilter import encode_gcs, CompactFilter, CFilterMessage, CFHeadersMessage
+    from buidl.helper import filter_null
+    from buidl.script import Script
+
+    res = Res()
+    height, bhash, blk, prev_scripts, prev_header, want_filter, want_header = R.BIP158_VECTORS[case["vector"]]
+    raw = bytes.fromhex("".join(blk))
+    want_filter = bytes.fromhex(want_filter)
+    outs = R._block_output_scripts(raw)
+    prevs = [bytes.fromhex(s) for s in prev_scripts]
+    if any(nonleading_op_return(s) for s in outs + prevs):
+        res.skip("vector contains an OP_RETURN after the first opcode (element selection of such scripts is not C18's subject)")
+        return res
+    prev = bytes.fromhex(prev_header)[::-1]
+
+    def build():
+        b = Block.parse(BytesIO(raw))
+        key = b.hash()[::-1][:16]
+        items = filter_null(list(prevs) + list(b.get_outpoints()))
+        enc = encode_gcs(key, items)
+        fh = CompactFilter.parse(key, enc).hash()
+        return b, enc, CFHeadersMessage(0, b.hash(), prev, [fh]).last_header
+
+    got = attempt(build)
+    if isinstance(got, Rejected):
+        viol(res, "blockvec", case, "rejected", repr(got), "filter built", f"building the basic filter of BIP158 test block {height} through Block.parse / get_outpoints / encode_gcs raises")
+        return res
+    b, enc, hdr = got
+    if enc != want_filter:
+        viol(res, "blockvec", case, "filter-bytes", hx(enc), want_filter.hex(), f"basic filter of BIP158 test block {height} built from Block.get_outpoints() + spent scripts differs from the published vector")
+    else:
+        res.ok("block filter==published vector", ("vector", height), sample={"height": height, "filter": want_filter.hex()[:40]})
+    if hdr != bytes.fromhex(want_header)[::-1]:
+        viol(res, "blockvec", case, "header", hx(hdr), want_header, f"filter header of block {height} differs from the published vector")
+    else:
+        res.ok("block filter header==published vector")
+    # every output script object of the parsed block and every spent script is reported present by the published filter
+    msg = attempt(CFilterMessage, 0, bytes.fromhex(bhash), want_filter)
+    if isinstance(msg, Rejected):
+        viol(res, "blockvec", case, "rejected", repr(msg), "parses", "CFilterMessage rejects the published filter")
+        return res
+    objs = [o.script_pubkey for t in b.txs for o in t.tx_outs]
+    assert len(objs) == len(outs)
+    missing = 0
+    n = 0
+    for o, s in zip(objs, outs):
+        if not s or s[0] == 0x6A:
+            continue
+        n += 1
+        if attempt(lambda: o in msg) is not True:
+            missing += 1
+    for s in prevs:
+        if s:
+            n += 1
+            o = attempt(Script.parse, raw=s)
+            if isinstance(o, Rejected) or attempt(lambda: o in msg) is not True:
+                missing += 1
+    if missing:
+        viol(res, "blockvec", case, "false-negative", {"missing": missing, "of": n}, "every script present", f"a script of block {height} (library TxOut.script_pubkey object) is not reported present by the published filter")
+    else:
+        res.ok("block scripts present in published filter", n=n)
+    return res
+
+
+# ---------------------------------------------------------------- membership through library script objects
+def script_alphabet(seed):
+    """(class, raw bytes, commands or None, typed constructor or None)"""
+    f = lambda label, n: filler(seed, "c18so-" + label, 0, n)  # noqa
+    h20, h32 = f("h20", 20), f("h32", 32)
+    pk33, pk33b, pk65 = b"\x02" + f("pk", 32), b"\x03" + f("pkb", 32), b"\x04" + f("pk65", 64)
+    d75, d76, d255, d256, d520, d521 = f("d75", 75), f("d76", 76), f("d255", 255), f("d256", 256), f("d520", 520), f("d521", 521)
+    A = []
+    # pushes that are not encoded the way the library would encode them
+    for raw in (
+        b"\x4c\x14" + h20,
+        b"\x4d\x14\x00" + h20,
+        b"\x4e\x14\x00\x00\x00" + h20,
+        b"\x4c\x00",
+        b"\x4d\x00\x00",
+        b"\x4c\x4b" + d75,
+        b"\x4d\xff\x00" + d255,
+        b"\x76\xa9\x4c\x14" + h20 + b"\x88\xac",
+    ):
+        A.append(("nonminimal-push", raw, None, None))
+    # scripts that end inside a push
+    for raw in (b"\x05\x01\x02", b"\x4c", b"\x4d\x05", b"\x4e\x01\x00\x00", b"\x4c\x05\xaa", b"\x14" + h20[:5], b"\x76\xa9\x14" + h20[:10], b"\x51\x20" + h32[:31]):
+        A.append(("truncated-push", raw, None, None))
+    # push-length boundaries, also built from commands
+    A.append(("push-boundary", b"\x4b" + d75, [d75], None))
+    A.append(("push-boundary", b"\x4c\x4c" + d76, [d76], None))
+    A.append(("push-boundary", b"\x4c\xff" + d255, [d255], None))
+    A.append(("push-boundary", b"\x4d\x00\x01" + d256, [d256], None))
+    A.append(("push-boundary", b"\x4d\x08\x02" + d520, [d520], None))
+    A.append(("push-boundary", b"\x4d\x09\x02" + d521, None, None))
+    # bare opcodes
+    for raw, cmds in ((b"\x00", [0]), (b"\x51", [0x51]), (b"\xac", [0xAC]), (b"\xff" * 10, [0xFF] * 10), (b"\x50\x60\xba", [0x50, 0x60, 0xBA]), (b"\x51\x6a", [0x51, 0x6A])):
+        A.append(("opcodes", raw, cmds, None))
+    # standard templates
+    A.append(("template", b"\x76\xa9\x14" + h20 + b"\x88\xac", [0x76, 0xA9, h20, 0x88, 0xAC], ("P2PKHScriptPubKey", h20)))
+    A.append(("template", b"\xa9\x14" + h20 + b"\x87", [0xA9, h20, 0x87], ("P2SHScriptPubKey", h20)))
+    A.append(("template", b"\x00\x14" + h20, [0, h20], ("P2WPKHScriptPubKey", h20)))
+    A.append(("template", b"\x00\x20" + h32, [0, h32], ("P2WSHScriptPubKey", h32)))
+    A.append(("template", b"\x51\x20" + h32, [0x51, h32], ("P2TRScriptPubKey", h32)))
+    A.append(("template", b"\x21" + pk33 + b"\xac", [pk33, 0xAC], None))
+    A.append(("template", b"\x41" + pk65 + b"\xac", [pk65, 0xAC], None))
+    A.append(("template", b"\x51\x21" + pk33 + b"\x21" + pk33b + b"\x52\xae", [0x51, pk33, pk33b, 0x52, 0xAE], None))
+    assert len(set(a[1] for a in A)) == len(A) and all(len(a[1]) <= 600 for a in A)
+    return A
+
+
+def gen_scriptobj(tier, seed):
+    cases = []
+    for kn, k in elem_keys(tier, seed):
+        for pad in (0, 7) if tier == "quick" else (0, 1, 7, 100, 253):
+            cases.append({"key": k.hex(), "kn": kn, "pad": pad, "seed": seed})
+    return cases
+
+
+def run_scriptobj(case):
+    import buidl.script as S
+    from buidl.compactfilter import CompactFilter, CFilterMessage
+
+    res = Res()
+    key = bytes.fromhex(case["key"])
+    seed = case["seed"]
+    A = script_alphabet(seed)
+    els = sorted(set([a[1] for a in A] + [b"\x00\x14" + H("c18so-pad", seed, j)[:20] for j in range(case["pad"])]))
+    ref = R.gcs_build(key, els)
+    cf = attempt(CompactFilter.parse, key, ref)
+    wire_hash = key + filler(seed, "c18blk", 1, 16)
+    msg = attempt(CFilterMessage.parse, BytesIO(b"\x00" + wire_hash + R.compact_size(len(ref)) + ref))
+    if isinstance(cf, Rejected) or isinstance(msg, Rejected):
+        viol(res, "scriptobj", case, "filter-rejected", repr(cf), "parses", "CompactFilter.parse / CFilterMessage.parse reject a BIP158 filter")
+        return res
+    for cls, raw, cmds, typed in A:
+        makers = [
+            ("Script.parse(raw=)", lambda: S.Script.parse(raw=raw)),
+            ("Script.parse(stream)", lambda: S.Script.parse(BytesIO(R.compact_size(len(raw)) + raw))),
+            ("ScriptPubKey.parse(stream)", lambda: S.ScriptPubKey.parse(BytesIO(R.compact_size(len(raw)) + raw))),
+        ]
+        if cmds is not None:
+            makers.append(("Script(commands)", lambda: S.Script(list(cmds))))
+        if typed is not None:
+            makers.append((typed[0], lambda: getattr(S, typed[0])(typed[1])))
+        for mname, make in makers:
+            obj = attempt(make)
+            if isinstance(obj, Rejected) or obj is None:
+                viol(res, "scriptobj", case, f"object-rejected/{cls}", repr(obj), "a script object", f"{mname} cannot represent the {len(raw)}-byte script {raw.hex()[:60]}: an element of the filter cannot be queried")
+                continue
+            r1 = attempt(lambda: obj in cf)
+            r2 = attempt(lambda: obj in msg)
+            if r1 is not True or r2 is not True:
+                viol(res, "scriptobj", case, f"false-negative/{cls}", {"in CompactFilter": repr(r1), "in CFilterMessage": repr(r2), "raw_serialize": hx(attempt(obj.raw_serialize))}, "present", f"the script {raw.hex()[:60]} is in the filter but its library object ({mname}) is not reported present")
+            else:
+                res.ok("script object present", (case["kn"], case["pad"], raw[:40], mname))
+    return res
+
+
+# ---------------------------------------------------------------- SipHash object call sequences
+SIP_STEPS = [0, 1, 7, 8, 9]
+SIP_SEQ_LENGTHS = list(range(0, 25)) + [63, 64, 65, 255, 256, 257, 600]
+
+
+def gen_sipseq(tier, seed):
+    ks = named_keys(tier, seed)
+    keys = [ks[2], ks[8]] if tier == "quick" else [ks[0], ks[1], ks[2], ks[8]]
+    depth = 4 if tier == "quick" else 6
+    cases = []
+    for kn, k in keys:
+        for n in SIP_SEQ_LENGTHS:
+            for s0 in SIP_STEPS:
+                cases.append({"key": k.hex(), "kn": kn, "len": n, "first": s0, "depth": depth, "seed": seed})
+    return cases
+
+
+def run_sipseq(case):
+    from buidl.siphash import SipHash_2_4
+
+    res = Res()
+    key = bytes.fromhex(case["key"])
+    n, s0, depth, seed = case["len"], case["first"], case["depth"], case["seed"]
+    msg = pattern("filler", n, seed)
+    pre = {}
+
+    def want(i):
+        if i not in pre:
+            pre[i] = R.siphash24(key, msg[:i])
+        return pre[i]
+
+    n_ok = 0
+    stop = False
+    for rest in itertools.product(SIP_STEPS, repeat=depth - 1):
+        steps = (s0,) + rest
+
+        def go():
+            h = SipHash_2_4(key)
+            pos = 0
+            seen = []
+            for st in steps:
+                h.update(msg[pos : pos + st])
+                pos = min(n, pos + st)
+                seen.append((pos, h.hash()))
+            h.update(msg[pos:])
+            return seen, h.hash(), h.hash(), h.digest()
+
+        out = attempt(go)
+        if isinstance(out, Rejected):
+            viol(res, "sipseq", case, "raises", repr(out), "hash values", f"update()/hash() sequence {steps} raises")
+            break
+        seen, fin, fin2, dig = out
+        for pos, got in seen:
+            if got != want(pos):
+                viol(res, "sipseq", case, "hash-between-updates", got, want(pos), f"chunks {steps}: hash() after {pos} bytes is not SipHash-2-4 of the prefix (hash() between update() calls must not disturb the state)")
+                stop = True
+                break
+        if stop:
+            break
+        if fin != want(n):
+            viol(res, "sipseq", case, "final-after-chunks", fin, want(n), f"chunks {steps} + remainder: final hash differs from the one-shot hash")
+            break
+        if fin2 != fin or dig != fin.to_bytes(8, "little"):
+            viol(res, "sipseq", case, "repeated-hash", [fin2, hx(dig)], fin, "a second hash()/digest() on the same object gives a different value")
+            break
+        n_ok += len(seen) + 3
+    res.bulk("chunked update/hash==ref", n_ok, n_ok)
+    if s0 != 0:
+        return res
+    # byte at a time, 8/9/64-byte strides
+    for stride in (1, 8, 9, 64):
+        def strided():
+            h = SipHash_2_4(key)
+            for i in range(0, n, stride):
+                h.update(msg[i : i + stride])
+            return h.hash()
+
+        got = attempt(strided)
+        if got != want(n):
+            viol(res, "sipseq", case, f"stride/{'bytewise' if stride == 1 else 'blocks'}", hx(got), want(n), f"{n}-byte message fed in {stride}-byte update() calls differs from the one-shot hash")
+        else:
+            res.ok("strided updates==ref", (case["kn"], n, stride))
+    # copy() is independent of the original; two live objects do not share state
+    cut = n // 2
+
+    def copies():
+        a = SipHash_2_4(key, msg[:cut])
+        c = a.copy()
+        c.update(b"\xa5" * 9)
+        a.update(msg[cut:])
+        d = a.copy()
+        return a.hash(), c.hash(), d.hash()
+
+    got = attempt(copies)
+    exp = (want(n), R.siphash24(key, msg[:cut] + b"\xa5" * 9), want(n))
+    if got != exp:
+        viol(res, "sipseq", case, "copy", hx(got), exp, "copy() is not an independent object with the same state")
+    else:
+        res.ok("copy independent")
+    key2 = bytes(b ^ 0x5A for b in key)
+
+    def two():
+        a = SipHash_2_4(key)
+        b = SipHash_2_4(key2)
+        a.update(msg[:cut])
+        b.update(msg)
+        fresh = SipHash_2_4(key).hash()
+        a.update(msg[cut:])
+        return a.hash(), b.hash(), fresh
+
+    got = attempt(two)
+    exp = (want(n), R.siphash24(key2, msg), want(0))
+    if got != exp:
+        viol(res, "sipseq", case, "instances-share-state", hx(got), exp, "two live SipHash_2_4 objects (or a fresh one created meanwhile) influence each other")
+    else:
+        res.ok("instances independent")
+    return res
+
+
+# ---------------------------------------------------------------- Golomb values of 2^26 and above
+def gen_golombhi(tier, seed):
+    top = 2000 * M
+    ranges = []
+    for k in range(26, 31):
+        ranges.append([(1 << k) - 64, (1 << k) + 64])
+    for n in (1, 2, 3, 4, 10, 100, 252, 253, 254, 1000, 1999, 2000):
+        ranges.append([max(0, n * M - 128), n * M])
+    cases = [{"ranges": [r]} for r in ranges]
+    # every quotient boundary between 2^26 and 2000*M
+    bounds = [[(q << P) - 2, (q << P) + 2] for q in range(128, (top >> P) + 1)]
+    per = 32
+    for i in range(0, len(bounds), per):
+        cases.append({"ranges": bounds[i : i + per]})
+    if tier == "thorough":
+        for lo in range(1 << 26, 1 << 27, GCHUNK * 8):
+            cases.append({"ranges": [[lo, lo + GCHUNK]]})
+    return cases
+
+
+def run_golombhi(case):
+    res = Res()
+    for lo, hi in case["ranges"]:
+        res.merge(run_golomb({"lo": lo, "hi": hi}))
+    return res
+
+
+HI_DELTAS = [0, 1 << 19, 1 << 26, 1 << 30, 2000 * M - 1]
+
+
+# ---------------------------------------------------------------- every set size
+def gen_gcssizes(tier, seed):
+    ks = named_keys(tier, seed)
+    cases = []
+    if tier == "quick":
+        for n in range(0, 301):
+            cases.append({"key": ks[2][1].hex(), "kn": ks[2][0], "n": n, "L": 25, "collide": False, "seed": seed})
+    else:
+        for kn, k in (ks[2], ks[8]):
+            for n in list(range(0, 601)) + [1998, 1999]:
+                cases.append({"key": k.hex(), "kn": kn, "n": n, "L": 25, "collide": False, "seed": seed})
+    cases.sort(key=lambda c: -c["n"])
+    return cases
+
+
+# ---------------------------------------------------------------- bloom filter histories
+BLOOM_HIST_PARAMS = [(1, 50, 0xFFFFFFFF), (2, 50, 0), (3, 7, 0x80000000), (8, 11, 99), (256, 3, 1), (36000, 50, 0xFFFFFFFF)]
+
+
+def gen_bloomhist(tier, seed):
+    cases = []
+    for size, nf, tweak in BLOOM_HIST_PARAMS:
+        for kind in ("repeat", "long", "bytearray", "two-live"):
+            cases.append({"size": size, "nf": nf, "tweak": tweak, "kind": kind, "n": 200 if tier == "quick" else 1000, "seed": seed})
+    tw = [0, 1, 0x7FFFFFFF, 0x80000000, 0xFFFFFFFF] if tier == "quick" else tweak_alphabet(tier, seed)
+    for t in tw:
+        cases.append({"kind": "unreduced-seed", "tweak": t, "seed": seed})
+    return cases
+
+
+def run_bloomhist(case):
+    from buidl.bloomfilter import BloomFilter
+    from buidl.helper import murmur3
+
+    res = Res()
+    kind, seed = case["kind"], case["seed"]
+    if kind == "unreduced-seed":
+        # BloomFilter.add hands murmur3 the unreduced integer i*0xFBA4C795 + tweak (up to ~2^37.6)
+        t = case["tweak"]
+        n_ok = 0
+        for i in range(50):
+            s = i * R.BIP37_MUL + t
+            for n in LENGTHS:
+                d = pattern("filler", n, seed)
+                got = attempt(murmur3, d, seed=s)
+                exp = R.murmur3_32(d, s & R.M32)
+                if got != exp:
+                    viol(res, "bloomhist", case, f"murmur-unreduced-seed/{'seed>=2^32' if s > R.M32 else 'seed<2^32'}", hx(got), exp, f"murmur3(data, seed={s:#x}) differs from MurmurHash3_x86_32 with the seed taken modulo 2^32 (len {n})")
+                else:
+                    n_ok += 1
+        res.bulk("murmur3(unreduced seed)==ref", n_ok, n_ok)
+        return res
+    size, nf, tweak = case["size"], case["nf"], case["tweak"]
+    nt = (size, nf, tweak, kind)
+    a, b, c = H("c18bh", seed, 0)[:20], H("c18bh", seed, 1), H("c18bh", seed, 2) + b"\x00\x00\x00\x00"
+    if kind == "repeat":
+        items = [a, b, a, a, c, b, c]
+    elif kind == "long":
+        items = [filler(seed, "c18bh-long", j, j % 71) for j in range(case["n"])]
+    elif kind == "bytearray":
+        items = [bytearray(pattern("filler", n, seed)) for n in (0, 1, 3, 4, 5, 20, 32, 36, 70)]
+    else:
+        items = [filler(seed, "c18bh-two", j, 1 + j % 40) for j in range(24)]
+    bf = attempt(BloomFilter, size, nf, tweak)
+    if isinstance(bf, Rejected):
+        viol(res, "bloomhist", case, "construct", repr(bf), "constructs", "BloomFilter(size, function_count, tweak) raises")
+        return res
+    vd = bytearray(size)
+    if kind == "two-live":
+        size2, nf2, tweak2 = size + 1, (nf % 50) + 1, tweak ^ 1
+        bf2 = attempt(BloomFilter, size2, nf2, tweak2)
+        vd2 = bytearray(size2)
+        for j, it in enumerate(items):
+            if j % 2 == 0:
+                attempt(bf.add, it)
+                R.bloom_insert(vd, it, nf, tweak)
+            else:
+                attempt(bf2.add, it)
+                R.bloom_insert(vd2, it, nf2, tweak2)
+            if size <= 256 or j == len(items) - 1:
+                got = (attempt(bf.filter_bytes), attempt(bf2.filter_bytes))
+                if got != (bytes(vd), bytes(vd2)):
+                    viol(res, "bloomhist", case, "bits/two-live", [hx(x) for x in got], [bytes(vd).hex()[:160], bytes(vd2).hex()[:160]], "two live BloomFilter objects with interleaved add() calls: a bit field differs from its own BIP37 reference")
+                    return res
+                res.ok("two live filters: bits==ref")
+        bf3 = attempt(BloomFilter, size, nf, tweak)
+        fb = attempt(bf3.filter_bytes) if not isinstance(bf3, Rejected) else bf3
+        if fb != bytes(size):
+            viol(res, "bloomhist", case, "fresh-instance-dirty", hx(fb), "all zero", "a newly constructed BloomFilter already has bits set")
+        else:
+            res.ok("fresh filter empty", nt)
+        return res
+    for j, it in enumerate(items):
+        r = attempt(bf.add, it)
+        R.bloom_insert(vd, bytes(it), nf, tweak)
+        if isinstance(r, Rejected):
+            viol(res, "bloomhist", case, f"add-raises/{kind}", repr(r), "item added", f"BloomFilter.add raises for item {j} ({type(it).__name__}, {len(it)} bytes)")
+            return res
+        if size <= 256:
+            fb = attempt(bf.filter_bytes)
+            if fb != bytes(vd):
+                viol(res, "bloomhist", case, f"bits/{kind}", hx(fb), bytes(vd).hex()[:160], f"bit field after add number {j + 1} of the history differs from BIP37")
+                return res
+    fb = attempt(bf.filter_bytes)
+    if fb != bytes(vd):
+        viol(res, "bloomhist", case, f"bits/{kind}", hx(fb), bytes(vd).hex()[:160], "bit field at the end of the history differs from BIP37")
+        return res
+    res.ok("history: bits==ref", nt, n=len(items))
+    missing = [it for it in items if not R.bloom_contains(fb, bytes(it), nf, tweak)]
+    if missing:
+        viol(res, "bloomhist", case, "false-negative", {"missing": len(missing)}, "all inserted items match", "an inserted item does not match the serialized filter")
+    else:
+        res.ok("members present", n=len(items))
+    msg = attempt(bf.filterload)
+    want = R.filterload_payload(vd, nf, tweak, 1)
+    if isinstance(msg, Rejected) or attempt(msg.serialize) != want:
+        viol(res, "bloomhist", case, "filterload", hx(msg), want.hex()[-40:], "filterload() after the history differs from the BIP37 payload")
+    else:
+        res.ok("filterload==ref")
+    return res
+
+
+# ---------------------------------------------------------------- message construction forms
+def gen_msgforms(tier, seed):
+    cases = []
+    for kn, k in elem_keys(tier, seed)[:3]:
+        for n in (0, 1, 3, 100) if tier == "quick" else (0, 1, 2, 3, 100, 253, 1000):
+            cases.append({"kind": "cfilter-ctor", "key": k.hex(), "kn": kn, "n": n, "seed": seed})
+    for n in range(2, 9) if tier == "quick" else range(2, 13):
+        for via in ("ctor", "parse"):
+            cases.append({"kind": "split-chain", "n": n, "via": via, "seed": seed})
+    return cases
+
+
+def run_msgforms(case):
+    from buidl.compactfilter import CFilterMessage, CFHeadersMessage
+
+    res = Res()
+    seed = case["seed"]
+    if case["kind"] == "cfilter-ctor":
+        key = bytes.fromhex(case["key"])
+        n = case["n"]
+        els = make_elements(seed, n, 25)
+        ref = R.gcs_build(key, els)
+        # block hash in display order: the key is the first 16 bytes of its byte-reversal
+        display = (key + filler(seed, "c18blk", 2, 16))[::-1]
+        msg = attempt(CFilterMessage, 0, display, ref)
+        if isinstance(msg, Rejected):
+            viol(res, "msgforms", case, "cfilter-ctor/rejected", repr(msg), "constructs", "CFilterMessage(filter_type, block_hash, filter_bytes) raises for a BIP158 filter")
+            return res
+        missing = [e for e in els if attempt(lambda: RawScript(e) in msg) is not True]
+        if missing:
+            viol(res, "msgforms", case, "cfilter-ctor/false-negative", {"missing": len(missing), "of": n}, "every element present", "CFilterMessage built with its constructor (block hash in display order) does not report an inserted element present")
+        else:
+            res.ok("cfilter ctor: members present", (case["kn"], n) if n else None, n=max(1, n))
+        obs = attempt(lambda: (msg.filter_type, msg.block_hash, msg.filter_bytes, msg.hash()))
+        exp = (0, display, ref, R.filter_hash(ref))
+        if obs != exp:
+            viol(res, "msgforms", case, "cfilter-ctor/fields", hx(obs) if isinstance(obs, Rejected) else [hx(x) for x in obs], [hx(x) for x in exp], "CFilterMessage fields / hash differ from the constructor arguments")
+        else:
+            res.ok("cfilter ctor: fields==ref")
+        return res
+    n, via = case["n"], case["via"]
+    prev = filler(seed, "c18prev", 1, 32)
+    hs = [filler(seed, "c18fh2", i, 32) for i in range(n)]
+    chain = R.header_chain(prev, hs)
+    stop = filler(seed, "c18stop", 1, 32)
+
+    def message(p, part):
+        if via == "ctor":
+            return CFHeadersMessage(0, stop, p, list(part))
+        return CFHeadersMessage.parse(BytesIO(b"\x00" + stop[::-1] + p + R.compact_size(len(part)) + b"".join(part)))
+
+    n_ok = 0
+    cuts = [(a,) for a in range(1, n)] + [(a, b) for a in range(1, n) for b in range(a + 1, n)]
+    for cut in cuts:
+        edges = (0,) + cut + (n,)
+
+        def go():
+            p = prev
+            lasts = []
+            for i in range(len(edges) - 1):
+                p = message(p, hs[edges[i] : edges[i + 1]]).last_header
+                lasts.append(p)
+            return lasts
+
+        got = attempt(go)
+        exp = [chain[e - 1] for e in edges[1:]]
+        if got != exp:
+            viol(res, "msgforms", case, f"split-chain/{via}", hx(got) if isinstance(got, Rejected) else [x.hex() for x in got], [x.hex() for x in exp], f"{n} filter hashes sent as {len(edges) - 1} cfheaders messages cut at {cut} (each starting from the previous message's last_header) do not end at the BIP157 chain value")
+        else:
+            n_ok += 1
+    res.bulk("split header batches==ref chain", n_ok, n_ok)
+    return res
+
+
 # ---------------------------------------------------------------- registry
 def engines(tier, seed):
     return [
@@ -952,7 +1694,7 @@ def engines(tier, seed):
             run_gcsvalues,
             kind="E1",
             rule="every tuple of 0..3 (thorough 0..4) deltas over {0,1,2,2^19-1,2^19,2^19+1,2^20-1,2^20,2^25,2^26-1} (delta 0 = repeated value, what "
-            "BIP158 encodes for colliding elements) plus runs of 252/253/254/1000 values: serialize_gcs == reference bytes, decode_gcs inverts, "
+            "BIP158 encodes for colliding elements) plus runs of 252/253/254/1000 values, plus every tuple of 1..3 deltas over {0,2^19,2^26,2^30,2000*M-1} that contains a delta >= 2^26: serialize_gcs == reference bytes, decode_gcs inverts, "
             "CompactFilter.parse(b).serialize() == b. Non-trivial = non-empty tuple",
         ),
         Engine(
@@ -996,5 +1738,99 @@ def engines(tier, seed):
             kind="E1",
             rule="every filter size 1..36000 bytes thorough (1..2048 and 35745..36000 quick) x (3 functions, tweak 0) and (11 functions, tweak 2^32-1) (sizes 4097..35744: one configuration "
             "per size, 3..7 functions, size-derived tweak), two 20-byte items: the set bits of bit_field are exactly the reference positions murmur3(item, i*0xFBA4C795+tweak mod 2^32) mod 8*size",
+        ),
+        Engine(
+            "elemlist",
+            gen_elemlist,
+            run_elemlist,
+            kind="E1",
+            rule="keys {zero, inc, filler0} (thorough 10 keys) x base sizes {1,2,3,10,252,253} (thorough adds 4,100,254,1000) of distinct elements x "
+            "script length {25, mixed 0..600} x list pattern {first element twice, first element again at the end, every element twice, one "
+            "element three times, n+1 copies of one element} and container form {tuple, set, frozenset, reversed list, rotated list}. Oracle: BIP158 "
+            "filter of the element SET (N = number of distinct elements) from the reference model. Checks: hashed_items, encode_gcs bytes, "
+            "CompactFilter(key, hashed_items(..)).serialize(), every element present in the filter the library built, argument not modified, second call identical",
+        ),
+        Engine(
+            "ctorforms",
+            gen_ctorforms,
+            run_ctorforms,
+            kind="E1",
+            rule="CompactFilter(key, values): every value list accumulated from 2..3 (thorough 2..4) deltas over {0,1,2^19-1,2^19,2^20,2^26-1}, "
+            "every distinct permutation of it, as list and as tuple: serialize() == reference encoding of the sorted values, hash(), second "
+            "serialize(), argument unchanged; plus reversed / rotated / evens-then-odds orders of the hashed values of 3 and 100 (thorough 4, 253, "
+            "1000) P2PKH elements under 3 keys: serialize() == reference filter and every element present",
+        ),
+        Engine(
+            "blockvec",
+            gen_blockvec,
+            run_blockvec,
+            kind="E1",
+            rule="the six BIP158 testnet test blocks (a vector with an OP_RETURN after the first opcode of a script would be skipped; none has one): "
+            "encode_gcs(key, filter_null(spent scripts + Block.parse(raw).get_outpoints())) == published filter, its header through "
+            "CompactFilter.hash / CFHeadersMessage == published header, and every TxOut.script_pubkey object of the parsed block (non-empty, not "
+            "starting with OP_RETURN) and every spent script is reported present by CFilterMessage(0, block_hash, published filter)",
+            chunk=1,
+        ),
+        Engine(
+            "scriptobj",
+            gen_scriptobj,
+            run_scriptobj,
+            kind="E1",
+            rule="keys {zero, inc, filler0} (thorough 10) x padding {0,7} (thorough {0,1,7,100,253}) extra elements; the filter is the reference "
+            "BIP158 filter of a 36-script alphabet: 8 pushes not in the library's own encoding (PUSHDATA1/2/4 for short data, empty PUSHDATA), 8 "
+            "scripts ending inside a push, push lengths 75/76/255/256/520/521, 6 bare-opcode scripts, 8 templates (p2pkh, p2sh, p2wpkh, p2wsh, "
+            "p2tr, p2pk 33/65, 1-of-2 multisig). Every script is queried through every library object form: Script.parse(raw=), "
+            "Script.parse(stream), ScriptPubKey.parse(stream), Script(commands) and the typed ScriptPubKey class where one exists; the object "
+            "must be constructible and reported present by CompactFilter.parse(...) and CFilterMessage.parse(...)",
+        ),
+        Engine(
+            "sipseq",
+            gen_sipseq,
+            run_sipseq,
+            kind="E1",
+            rule="keys {inc, filler0} (thorough adds zero, ff) x message length {0..24, 63, 64, 65, 255, 256, 257, 600} x every sequence of 4 "
+            "(thorough 6) update() chunk sizes over {0,1,7,8,9} followed by the remainder: hash() after every chunk == reference SipHash-2-4 of "
+            "the prefix fed so far, final hash, a second hash(), digest(); plus 1/8/9/64-byte strides, copy() independence and two live objects "
+            "with different keys. All (key, length, chunking) triples distinct",
+        ),
+        Engine(
+            "golombhi",
+            gen_golombhi,
+            run_golombhi,
+            kind="E1",
+            rule="Golomb-Rice values of 2^26 and above (a delta can reach N*M-1 = 2000*784931-1): +-64 windows around 2^26..2^30, the 128 values "
+            "below N*M for N in {1,2,3,4,10,100,252,253,254,1000,1999,2000}, +-2 around every multiple of 2^19 from 2^26 to 2000*M (thorough "
+            "adds 2^14-value windows every 2^17 in [2^26, 2^27)); same comparisons as `golomb` (violations carry the golomb fingerprints)",
+            chunk=1,
+        ),
+        Engine(
+            "gcssizes",
+            gen_gcssizes,
+            run_gcs,
+            kind="E1",
+            rule="every set size N = 0..300 under key `inc` (thorough: 0..600, 1998, 1999 under keys inc and filler0) of distinct P2PKH scripts "
+            "through all checks of the `gcs` engine (violations carry the gcs fingerprints); the total bit length takes every residue modulo 8",
+            chunk=1,
+        ),
+        Engine(
+            "bloomhist",
+            gen_bloomhist,
+            run_bloomhist,
+            kind="E1",
+            rule="(size, functions, tweak) in {(1,50,2^32-1),(2,50,0),(3,7,2^31),(8,11,99),(256,3,1),(36000,50,2^32-1)} x history {items repeated "
+            "(A,B,A,A,C,B,C), 200 (thorough 1000) items of lengths 0..70 cycling, bytearray items, two live filters with interleaved adds + a fresh "
+            "third one}: bit field == BIP37 reference after every add (sizes <= 256) and at the end, every item matches, filterload payload; plus "
+            "murmur3(data, i*0xFBA4C795+tweak) with the UNREDUCED integer seed (i = 0..49, 5 tweaks, thorough the bloom tweak alphabet) for every "
+            "length 0..70 == reference with the seed modulo 2^32",
+        ),
+        Engine(
+            "msgforms",
+            gen_msgforms,
+            run_msgforms,
+            kind="E1",
+            rule="CFilterMessage(0, block_hash in display order, filter) built with the constructor for 3 keys x sizes {0,1,3,100} (thorough adds "
+            "2,253,1000): every element present, fields, hash; CFHeadersMessage: a chain of n = 2..8 (thorough 2..12) filter hashes cut at every "
+            "1 or 2 positions into 2 or 3 messages (constructor or parse), each message starting from the previous one's last_header: every "
+            "message's last_header equals the reference chain value at its cut",
         ),
     ]
